@@ -41,8 +41,16 @@ def raising_hook(exc):
     return {'ioos_qc.qartod.density_inversion_test': hook}
 
 
-def healthy():
+def healthy(tname=None):
+    if tname == 'no-axes':
+        # a record without any axis column: only the tests that need the values alone are healthy there
+        return {'a': ['gross', 'spike'], 'b': ['valid']}
     return {'a': ['gross', 'spike', 'roc'], 'b': ['flat', 'valid']}
+
+
+# two failing entries of different kinds in one config (each must drop out on its own; neither may shield or expose the other)
+PAIRS = [('unknown-test', 'raises-on-data'), ('rejected-parameters', 'absent-stream-id'), ('unknown-module', 'missing-required-parameter'),
+         ('raises-KeyError', 'unknown-test'), ('absent-stream-id', 'raises-ValueError')]
 
 
 def insert(tests, sid, entry, where):
@@ -69,15 +77,18 @@ def run(ck):
         'Decided by abstract interpretation of Config / Call.run / the stream front ends: a healthy config (five tests on two streams, a second context) is '
         'run alone and with one failing entry of every kind (unknown module, unknown test, parameters the function rejects, a missing required parameter, a '
         'malformed parameter, an unknown method name, a stream id absent from the data, a test that raises while evaluating, a test whose depth input the '
-        'stream does not supply) inserted first / in the middle / last in a stream, in another stream and in the second context, on every front end: the run completes, '
+        'stream does not supply, a test that needs the time axis of a record that has none, and pairs of two different failing entries) inserted first / in the middle / last in a stream, in another stream and in the second context, on every front end: the run completes, '
         'the failing entry contributes no result, and every other (stream, test, rows) result is an equivalent flag expression to the healthy run.')
     thorough = ck.tier == 'thorough'
     frontends = ['numpy', 'netcdf', 'pandas', 'xarray']
-    tables = {'all-axes': Table(5, missing={'a': {2}}), 'time-only': Table(5, missing={'a': {2}}, with_axes=('time',))}
+    tables = {'all-axes': Table(5, missing={'a': {2}}), 'time-only': Table(5, missing={'a': {2}}, with_axes=('time',)),
+              'no-axes': Table(5, missing={'a': {2}}, with_axes=())}
+    FAULTS['needs-time'] = ('a', ('qartod', 'rate_of_change_test', {'threshold': Fr(1)}))          # only a fault on a table without a time axis
     for tname, table in tables.items():
-        base_contexts = [dict(window=(None, None), tests=healthy())]
-        two_contexts = [dict(window=(None, None), tests=healthy()), dict(window=(None, None), tests={'a': ['gross']})]
+        base_contexts = [dict(window=(None, None), tests=healthy(tname))]
         for fe in frontends:
+            if tname == 'no-axes' and fe == 'xarray':
+                continue        # a Dataset variable always has its dimension coordinate
             base = run_frontend(ck.runner, fe, table, make_config_source(base_contexts))
             if base.error is not None:
                 ck.violate('C18.base', f'{fe}:healthy-run-raises', f'{fe}[{tname}]: the healthy config raises {base.error.exc}')
@@ -89,17 +100,28 @@ def run(ck):
             for fname, (sid, entry) in FAULTS.items():
                 if fname == 'needs-depth' and 'z' in table.axes:
                     continue
+                if fname == 'needs-time' and 'time' in table.axes:
+                    continue
+                if tname == 'no-axes' and (fname.startswith('raises-') and fname not in ('raises-on-data', 'raises-KeyError') or 'module' in fname):
+                    continue
                 if fname.startswith('raises-') and fname != 'raises-on-data' and not thorough and (fe not in ('numpy', 'pandas') or tname != 'all-axes'):
                     continue
                 places = ['first', 'middle', 'last'] if thorough else ['first', 'last']
                 if fname.startswith('raises-') and fname != 'raises-on-data' and not thorough:
                     places = ['middle']
                 for where in places:
-                    contexts = [dict(window=(None, None), tests=insert(healthy(), sid, entry, where))]
+                    contexts = [dict(window=(None, None), tests=insert(healthy(tname), sid, entry, where))]
                     check_run(ck, fe, tname, fname, where, table, contexts, base_map, entry, sid, base_collected)
                 # the failing entry in a second context
-                contexts = [dict(window=(None, None), tests=healthy()), dict(window=(t(1), t(4)), tests={sid: [entry]})]
-                check_run(ck, fe, tname, fname, 'second-context', table, contexts, base_map, entry, sid, base_collected)
+                if 'time' in table.axes:
+                    contexts = [dict(window=(None, None), tests=healthy(tname)), dict(window=(t(1), t(4)), tests={sid: [entry]})]
+                    check_run(ck, fe, tname, fname, 'second-context', table, contexts, base_map, entry, sid, base_collected)
+            if tname == 'all-axes' and (thorough or fe in ('numpy', 'pandas')):
+                for f1, f2 in PAIRS:
+                    (s1, e1), (s2, e2) = FAULTS[f1], FAULTS[f2]
+                    for w1, w2 in ((('first', 'last'),) if not thorough else (('first', 'last'), ('last', 'first'), ('middle', 'middle'))):
+                        contexts = [dict(window=(None, None), tests=insert(insert(healthy(tname), s1, e1, w1), s2, e2, w2))]
+                        check_run(ck, fe, tname, f'{f1}+{f2}', f'{w1}/{w2}', table, contexts, base_map, e1, s1, base_collected, also=[(s2, e2)])
     # stream ids that are not strings (YAML reads the keys 0, 7 as integers; DataFrame columns / dict keys may be integers too)
     ren = {'a': 0, 'b': 7, 'ghost': 99}
     itable = Table(5, streams=(0, 7), missing={0: {2}})
@@ -119,12 +141,13 @@ def run(ck):
     ck.floor('C18.survivors', 200)
 
 
-def check_run(ck, fe, tname, fname, where, table, contexts, base_map, entry, sid, base_collected=None):
+def check_run(ck, fe, tname, fname, where, table, contexts, base_map, entry, sid, base_collected=None, also=()):
     label = f'{fe}[{tname}] fault={fname} at {where}'
     hooks = ck.runner.interp.hooks
     saved = dict(hooks)
-    if fname.startswith('raises-') and fname != 'raises-on-data':
-        hooks.update(raising_hook(fname.split('-', 1)[1]))
+    for part in fname.split('+'):
+        if part.startswith('raises-') and part != 'raises-on-data':
+            hooks.update(raising_hook(part.split('-', 1)[1]))
     try:
         run = run_frontend(ck.runner, fe, table, make_config_source(contexts))
     finally:
@@ -139,11 +162,12 @@ def check_run(ck, fe, tname, fname, where, table, contexts, base_map, entry, sid
         return
     ck.hold('C18.completes', label)
     got = result_map(run)
-    mod, test, _ = entry
-    # the failing entry contributes nothing (healthy entries with the same name on the same stream are in the base map)
-    faulty = [k for k in got if k[0] == sid and k[1] == mod and k[2] == test and k not in base_map]
-    ck.ob('C18.dropped', label, not faulty, key=f'{fe}:{fname}:result-from-failing-test',
-          what=f'{label}: the failing entry {sid}:{mod}.{test} produced a result {faulty}')
+    for sid, entry in [(sid, entry), *also]:
+        mod, test, _ = entry
+        # the failing entry contributes nothing (healthy entries with the same name on the same stream are in the base map)
+        faulty = [k for k in got if k[0] == sid and k[1] == mod and k[2] == test and k not in base_map]
+        ck.ob('C18.dropped', label, not faulty, key=f'{fe}:{fname}:result-from-failing-test',
+              what=f'{label}: the failing entry {sid}:{mod}.{test} produced a result {faulty}')
     missing = [k for k in base_map if k not in got]
     ck.ob('C18.survivors', label, not missing, key=f'{fe}:{fname}:healthy-result-lost',
           what=f'{label}: healthy results disappeared: {[k[:3] for k in missing]}')
